@@ -21,6 +21,7 @@ import (
 	"net/url"
 	"os"
 	"path/filepath"
+	"runtime"
 	"sort"
 	"strings"
 	"sync"
@@ -51,6 +52,10 @@ var c16Kinds = []c16Req{
 	// another user's requests share the in-memory tables
 	{"u2f-sign-request", "bob"}, {"u2f-sign-request", "alice"}, {"vip-push-start", "bob"},
 	{"oauth2-begin", ""}, {"oauth2-callback", ""},
+	// an administrator (with U2F) acting on alice's tokens; alice's requests meet them
+	{"u2f-manage-admin", "Disable"}, {"u2f-manage-admin", "Delete"}, {"totp-manage-admin", "Disable"},
+	// the other user proves her own factors at the same time
+	{"totp-auth", "bob"}, {"bootstrap-auth", "wrong"},
 }
 
 type c16World struct {
@@ -92,6 +97,7 @@ func c16NewWorld(shim bool) *c16World {
 	w.vSetBootstrapOTP("carol", "carol-boot-otp", time.Hour)
 	w.pw.users["bob"] = "bob-pw"
 	w.vSetU2F("bob", vNewSoftU2F("c16-bob"), 100)
+	w.vSetTOTP("bob", vTOTPSecretBob)
 	st.SaveUserProfile("newbie", &userProfile{})
 	// pending sign challenge + one assertion for it
 	signReq := vNewRequest("GET", u2fSignRequestPath, nil)
@@ -131,6 +137,14 @@ func (cw *c16World) request(r c16Req) (*http.Request, http.HandlerFunc) {
 	case "totp-manage":
 		req = vFormRequest("POST", totpTokenManagementPath, url.Values{"username": {c16User}, "index": {"200"}, "action": {r.Arg}, "name": {"renamed-totp"}})
 		h = st.totpTokenManagerHandler
+	case "u2f-manage-admin":
+		req = vFormRequest("POST", u2fTokenManagementPath, url.Values{"username": {c16User}, "index": {"100"}, "action": {r.Arg}, "name": {"renamed-by-admin"}})
+		h = st.u2fTokenManagerHandler
+		user = "root-admin"
+	case "totp-manage-admin":
+		req = vFormRequest("POST", totpTokenManagementPath, url.Values{"username": {c16User}, "index": {"200"}, "action": {r.Arg}, "name": {"renamed-by-admin"}})
+		h = st.totpTokenManagerHandler
+		user = "root-admin"
 	case "u2f-register-request":
 		req = vNewRequest("GET", u2fRegustisterRequestPath+c16User, nil)
 		h = st.u2fRegisterRequest
@@ -144,12 +158,20 @@ func (cw *c16World) request(r c16Req) (*http.Request, http.HandlerFunc) {
 		req = vFormRequest("POST", totpAuthPath, url.Values{"OTP": {cw.totpCode}})
 		h = st.TOTPAuthHandler
 		bits = AuthTypePassword
+		if r.Arg == "bob" {
+			req = vFormRequest("POST", totpAuthPath, url.Values{"OTP": {vTOTPCode(vTOTPSecretBob, time.Now())}})
+			user = "bob"
+		}
 	case "u2f-sign-response":
 		req = vNewRequest("POST", u2fSignResponsePath, bytes.NewReader(cw.assertion))
 		h = st.u2fSignResponse
 		bits = AuthTypePassword
 	case "bootstrap-auth":
-		req = vFormRequest("POST", bootstrapOtpAuthPath, url.Values{"OTP": {"carol-boot-otp"}})
+		otp := "carol-boot-otp"
+		if r.Arg == "wrong" {
+			otp = "not-carols-otp"
+		}
+		req = vFormRequest("POST", bootstrapOtpAuthPath, url.Values{"OTP": {otp}})
 		h = st.BootstrapOtpAuthHandler
 		user, bits = "carol", AuthTypePassword
 	case "u2f-sign-request":
@@ -346,7 +368,21 @@ type c16PairCase struct {
 	B c16Req `json:"b"`
 }
 
+// c16TokenKey: the token of alice a management request acts on ("" for other requests).
+func c16TokenKey(r c16Req) string {
+	switch r.Kind {
+	case "u2f-manage", "u2f-manage-admin":
+		return "u2f100"
+	case "totp-manage", "totp-manage-admin":
+		return "totp200"
+	}
+	return ""
+}
+
 func c16OneTimeKind(r c16Req) string {
+	if r.Arg != "" {
+		return "" // another user's / a wrong value
+	}
 	switch r.Kind {
 	case "totp-auth", "u2f-sign-response", "bootstrap-auth":
 		return r.Kind
@@ -382,16 +418,11 @@ func c16PairCheck(c c16PairCase) *vResult {
 				continue
 			}
 			var tokenKey string
-			switch r.Kind {
-			case "u2f-manage":
-				tokenKey = "u2f100"
-			case "totp-manage":
-				tokenKey = "totp200"
-			}
+			tokenKey = c16TokenKey(r)
 			if tokenKey == "" || (r.Arg != "Disable" && r.Arg != "Delete") {
 				continue
 			}
-			undoneLegitimately := out.Acked[1-i] && o.Kind == r.Kind && o.Arg == "Enable"
+			undoneLegitimately := out.Acked[1-i] && c16TokenKey(o) == tokenKey && o.Arg == "Enable"
 			final := out.Final[c16User]
 			stillThere := strings.Contains(final, tokenKey+":true")
 			if r.Arg == "Delete" {
@@ -416,19 +447,308 @@ func c16PairCheck(c c16PairCase) *vResult {
 
 func TestVerifC16Schedules(t *testing.T) {
 	vRunRapid(t,
-		"rapid draws a pair of requests on the same user from 22 request kinds (token management Disable/Delete/Enable/Update for U2F and TOTP, registration begin/finish, TOTP generate, TOTP / U2F / bootstrap-OTP authentication, webauthn begin, admin bootstrap OTP, login, profile view); for each pair ALL interleavings of the two requests' storage operations (profile load = query, profile write = begin) are enumerated under a scheduler that parks each operation in a wrapping SQL driver (count in coverage.per_test.extra.schedules_run); every case counts; distinct = the pair",
+		"rapid draws a pair of requests on the same user from 27 request kinds (token management Disable/Delete/Enable/Update for U2F and TOTP, registration begin/finish, TOTP generate, TOTP / U2F / bootstrap-OTP authentication, webauthn begin, admin bootstrap OTP, login, profile view); for each pair ALL interleavings of the two requests' storage operations (profile load = query, profile write = begin) are enumerated under a scheduler that parks each operation in a wrapping SQL driver (count in coverage.per_test.extra.schedules_run); every case counts; distinct = the pair",
 		func(t *rapid.T) c16PairCase {
 			a := rapid.SampledFrom(c16Kinds).Draw(t, "a")
 			b := rapid.SampledFrom(c16Kinds).Draw(t, "b")
 			// the clauses are about a Disable/Delete meeting any writer, or the same one-time value twice
-			switch rapid.IntRange(0, 3).Draw(t, "shape") {
+			switch rapid.IntRange(0, 4).Draw(t, "shape") {
 			case 0:
 				a = rapid.SampledFrom(c16Kinds[:7]).Draw(t, "a2")
 			case 1:
 				b = a
+			case 2:
+				// an administrator's Disable / Delete meets one of the user's own writers
+				a = rapid.SampledFrom([]c16Req{{"u2f-manage-admin", "Disable"}, {"u2f-manage-admin", "Delete"}, {"totp-manage-admin", "Disable"}}).Draw(t, "a3")
+				b = rapid.SampledFrom(c16Kinds[:13]).Draw(t, "b3")
 			}
 			return c16PairCase{A: a, B: b}
 		}, c16PairCheck)
+}
+
+// ------------------------------------------------------------ (i-b) three requests, late arrivals
+
+// c16GID: id of the calling goroutine (the SQL driver runs in the goroutine of
+// the request that issued the operation, which is how a parked operation is
+// attributed to its request).
+func c16GID() int64 {
+	var buf [64]byte
+	n := runtime.Stack(buf[:], false)
+	var id int64
+	fmt.Sscanf(string(buf[:n]), "goroutine %d ", &id)
+	return id
+}
+
+type c16OutcomeN struct {
+	Status  []int
+	Acked   []bool
+	Factor  []bool
+	Final   map[string]string
+	Stalled bool
+	Trace   string
+}
+
+type c16ParkEvent struct {
+	idx     int
+	release chan struct{}
+}
+
+type c16DoneEvent struct {
+	idx  int
+	resp *vResp
+}
+
+// c16RunScheduleN runs len(reqs) requests under schedule, a string over
+// request indices: the first occurrence of an index STARTS that request (so a
+// request can arrive while others are in the middle of theirs), later
+// occurrences let it perform its next storage operation.  A request that
+// neither parks nor finishes within the patience is blocked on something held
+// by another request (the per-user lock) and is left alone until it moves.
+func c16RunScheduleN(reqs []c16Req, schedule string) c16OutcomeN {
+	cw := c16NewWorld(true)
+	defer cw.w.Close()
+	defer cw.oauth.srv.Close()
+	n := len(reqs)
+	out := c16OutcomeN{Status: make([]int, n), Acked: make([]bool, n), Factor: make([]bool, n)}
+	parkCh := make(chan c16ParkEvent, 16)
+	doneCh := make(chan c16DoneEvent, 16)
+	var gidMu sync.Mutex
+	gidOf := map[int64]int{}
+	enabled := true
+	cw.ctl.Lock()
+	cw.ctl.gate = func(what string) {
+		if what != "query:select" && what != "begin" {
+			return
+		}
+		gidMu.Lock()
+		idx, ok := gidOf[c16GID()]
+		on := enabled
+		gidMu.Unlock()
+		if !ok || !on {
+			return
+		}
+		rel := make(chan struct{})
+		parkCh <- c16ParkEvent{idx, rel}
+		<-rel
+	}
+	cw.ctl.Unlock()
+	started := make([]bool, n)
+	finished := make([]bool, n)
+	pending := make([]chan struct{}, n)
+	absorb := func(pe *c16ParkEvent, de *c16DoneEvent) {
+		if pe != nil {
+			pending[pe.idx] = pe.release
+			out.Trace += fmt.Sprintf("p%d ", pe.idx)
+		}
+		if de != nil {
+			finished[de.idx] = true
+			pending[de.idx] = nil
+			out.Status[de.idx] = de.resp.Code
+			out.Acked[de.idx] = de.resp.Code >= 200 && de.resp.Code < 400
+			if ck := de.resp.Cookie(authCookieName); ck != nil && ck.Value != "" {
+				out.Factor[de.idx] = true
+			}
+			out.Trace += fmt.Sprintf("f%d:%d ", de.idx, de.resp.Code)
+		}
+	}
+	// settle: process events until request i has parked or finished, or the
+	// patience is over (then i is blocked behind somebody)
+	settle := func(i int, patience time.Duration) {
+		timer := time.After(patience)
+		for {
+			if finished[i] || pending[i] != nil {
+				return
+			}
+			select {
+			case pe := <-parkCh:
+				absorb(&pe, nil)
+			case de := <-doneCh:
+				absorb(nil, &de)
+			case <-timer:
+				return
+			}
+		}
+	}
+	step := func(i int) {
+		if i < 0 || i >= n || finished[i] {
+			return
+		}
+		if !started[i] {
+			started[i] = true
+			req, h := cw.request(reqs[i])
+			ready := make(chan struct{})
+			go func() {
+				gidMu.Lock()
+				gidOf[c16GID()] = i
+				gidMu.Unlock()
+				close(ready)
+				doneCh <- c16DoneEvent{i, vServe(h, req)}
+			}()
+			<-ready
+			out.Trace += fmt.Sprintf("s%d ", i)
+			settle(i, 120*time.Millisecond)
+			return
+		}
+		if pending[i] == nil {
+			settle(i, 40*time.Millisecond) // blocked: has it moved meanwhile?
+			return
+		}
+		close(pending[i])
+		pending[i] = nil
+		out.Trace += fmt.Sprintf("r%d ", i)
+		settle(i, 120*time.Millisecond)
+	}
+	for _, ch := range schedule {
+		step(int(ch - '0'))
+	}
+	deadline := time.Now().Add(20 * time.Second)
+	for {
+		all := true
+		for i := 0; i < n; i++ {
+			if !finished[i] {
+				all = false
+				step(i)
+			}
+		}
+		if all {
+			break
+		}
+		if time.Now().After(deadline) {
+			out.Stalled = true
+			break
+		}
+	}
+	gidMu.Lock()
+	enabled = false
+	gidMu.Unlock()
+	// let stragglers of a stalled run go
+	for i := range pending {
+		if pending[i] != nil {
+			close(pending[i])
+		}
+	}
+	if out.Stalled {
+		go func() {
+			for {
+				select {
+				case pe := <-parkCh:
+					close(pe.release)
+				case <-doneCh:
+				case <-time.After(5 * time.Second):
+					return
+				}
+			}
+		}()
+		time.Sleep(200 * time.Millisecond)
+	}
+	out.Final = c16Digest(cw.w)
+	return out
+}
+
+type c16TripleCase struct {
+	Reqs     []c16Req `json:"reqs"`
+	Schedule string   `json:"schedule"`
+	Shape    string   `json:"shape"`
+}
+
+func c16TripleGen(t *rapid.T) c16TripleCase {
+	c := c16TripleCase{}
+	aliceWriters := c16Kinds[:13]
+	managers := []c16Req{{"u2f-manage", "Disable"}, {"u2f-manage", "Delete"}, {"totp-manage", "Disable"}, {"totp-manage", "Delete"},
+		{"u2f-manage-admin", "Disable"}, {"u2f-manage-admin", "Delete"}, {"totp-manage-admin", "Disable"}}
+	switch rapid.IntRange(0, 4).Draw(t, "shape") {
+	case 0, 1:
+		// the same one-time value twice, behind a third request of that user
+		c.Shape = "onetime"
+		y := rapid.SampledFrom([]c16Req{{"bootstrap-auth", ""}, {"totp-auth", ""}, {"u2f-sign-response", ""}}).Draw(t, "y")
+		x := c16Req{"bootstrap-auth", "wrong"}
+		if y.Kind != "bootstrap-auth" {
+			x = rapid.SampledFrom(aliceWriters).Draw(t, "x")
+		}
+		c.Reqs = []c16Req{x, y, y}
+	case 2, 3:
+		c.Shape = "disable"
+		c.Reqs = []c16Req{rapid.SampledFrom(aliceWriters).Draw(t, "x"), rapid.SampledFrom(managers).Draw(t, "d"), rapid.SampledFrom(aliceWriters).Draw(t, "w")}
+		if rapid.Bool().Draw(t, "dfirst") {
+			c.Reqs[0], c.Reqs[1] = c.Reqs[1], c.Reqs[0]
+		}
+	default:
+		c.Shape = "any"
+		c.Reqs = rapid.SliceOfN(rapid.SampledFrom(c16Kinds), 3, 3).Draw(t, "reqs")
+	}
+	if rapid.Bool().Draw(t, "late") {
+		// late arrival: 0 is inside its critical section when 1 arrives; 0 finishes;
+		// 2 arrives while 1 is in the middle of its own operations
+		c.Schedule = "01" + strings.Repeat("0", rapid.IntRange(2, 5).Draw(t, "finish0")) + strings.Repeat("1", rapid.IntRange(0, 2).Draw(t, "adv1")) + "2"
+		c.Shape += "/late"
+	}
+	c.Schedule += rapid.StringOfN(rapid.RuneFrom([]rune{'0', '1', '2'}), 4, 12, 12).Draw(t, "mix")
+	return c
+}
+
+func c16TripleCheck(c c16TripleCase) *vResult {
+	var names []string
+	for _, r := range c.Reqs {
+		names = append(names, r.String())
+	}
+	res := &vResult{Desc: strings.Join(names, "|") + "@" + c.Schedule, NonTrivial: true}
+	res.label("shape:" + c.Shape)
+	if len(c.Reqs) < 2 || len(c.Reqs) > 4 {
+		res.NonTrivial = false
+		return res
+	}
+	for _, ch := range c.Schedule {
+		if int(ch-'0') < 0 || int(ch-'0') >= len(c.Reqs) {
+			res.NonTrivial = false
+			return res
+		}
+	}
+	out := c16RunScheduleN(c.Reqs, c.Schedule)
+	if out.Stalled {
+		res.label("stalled")
+		res.NonTrivial = false
+		return res
+	}
+	final := out.Final[c16User]
+	for i, r := range c.Reqs {
+		tokenKey := c16TokenKey(r)
+		if !out.Acked[i] || tokenKey == "" || (r.Arg != "Disable" && r.Arg != "Delete") {
+			continue
+		}
+		legit := false
+		for j, o := range c.Reqs {
+			if j != i && out.Acked[j] && c16TokenKey(o) == tokenKey && o.Arg == "Enable" {
+				legit = true
+			}
+		}
+		stillThere := strings.Contains(final, tokenKey+":true")
+		if r.Arg == "Delete" {
+			stillThere = strings.Contains(final, tokenKey+":")
+		}
+		if stillThere && !legit {
+			res.violate("lost-update:triple:"+r.Kind, "requests [%s] under schedule %s (trace %s): %s was acknowledged (status %d) but at the end the token is back: %q",
+				strings.Join(names, " | "), c.Schedule, out.Trace, r, out.Status[i], final)
+		}
+	}
+	honoured := map[string]int{}
+	for i, r := range c.Reqs {
+		if k := c16OneTimeKind(r); k != "" && out.Factor[i] {
+			honoured[k]++
+		}
+	}
+	for k, cnt := range honoured {
+		if cnt > 1 {
+			res.violate("double-spend:triple:"+k, "requests [%s] under schedule %s (trace %s): the same one-time value (%s) was honoured %d times (statuses %v)",
+				strings.Join(names, " | "), c.Schedule, out.Trace, k, cnt, out.Status)
+		}
+	}
+	return res
+}
+
+func TestVerifC16Triples(t *testing.T) {
+	vRunRapid(t,
+		"rapid draws three requests (the same one-time value twice behind a third request of that user / a Disable or Delete among two other writers / any three of the 27 kinds) and a schedule over request indices in which the first occurrence of an index STARTS the request (late arrivals while others are inside their critical section or blocked behind it) and later occurrences let it perform its next storage operation, under the parking SQL driver; oracle: acknowledged Disable/Delete survives, one-time value honoured at most once; non-trivial = the run completed; distinct = (requests, schedule)",
+		c16TripleGen, c16TripleCheck)
 }
 
 // ------------------------------------------------------------ (ii) race detector
@@ -480,7 +800,7 @@ func c16RaceCheck(c c16RaceCase) *vResult {
 
 func TestVerifC16Race(t *testing.T) {
 	vRunRapid(t,
-		"rapid (binary built with -race): 2-4 requests from the 22 kinds plus the readiness probe and the pending-table cleaner on real goroutines released together; the driver turns race-detector reports whose stacks contain keymaster frames into violations; every case counts; distinct = the request multiset",
+		"rapid (binary built with -race): 2-4 requests from the 27 kinds plus the readiness probe and the pending-table cleaner on real goroutines released together; the driver turns race-detector reports whose stacks contain keymaster frames into violations; every case counts; distinct = the request multiset",
 		func(t *rapid.T) c16RaceCase {
 			// requests that share one in-memory table are worth meeting each other
 			groups := [][]c16Req{
@@ -488,6 +808,7 @@ func TestVerifC16Race(t *testing.T) {
 				{{"oauth2-begin", ""}, {"oauth2-callback", ""}, {"oauth2-begin", ""}},
 				{{"vip-push-start", "bob"}, {"vip-push-start", "alice"}, {"login", ""}},
 				{{"totp-auth", ""}, {"totp-auth", ""}, {"totp-generate", ""}},
+				{{"totp-auth", ""}, {"totp-auth", "bob"}, {"totp-auth", "bob"}, {"bootstrap-auth", ""}},
 			}
 			if rapid.Bool().Draw(t, "grouped") {
 				g := rapid.SampledFrom(groups).Draw(t, "group")
